@@ -90,8 +90,28 @@ var fReuseA1 = bigslice.Func(func() bigslice.Slice {
 	return bigslice.Map(s, func(k, v int) (int, int) { return k, v + 100 })
 })
 
+// Skewed shuffles: the map shards hold DISJOINT, ordered key ranges (Const
+// shards are contiguous blocks of the rows), so in every partition the stream
+// coming from the last map shard holds the largest keys and is the only one the
+// consumer's merge still reads once the others are drained; every stream has
+// several chunks. Used for cuts inside task-to-task reads only.
+var fDisjReduce = bigslice.Func(func() bigslice.Slice {
+	s := bigslice.Const(2, seq(48), seq(48))
+	s = bigslice.Map(s, func(k, v int) (int, int) { return k, v + 1000 })
+	return bigslice.Reduce(s, func(a, b int) int { return a + b })
+})
+
+var fDisjCogroup = bigslice.Func(func() bigslice.Slice {
+	a := bigslice.Const(2, seq(16), seq(16))
+	b := bigslice.Const(2, []int{3, 4, 7, 8, 11, 12, 15, 16, 19, 20}, []int{30, 40, 70, 80, 110, 120, 150, 160, 190, 200})
+	return bigslice.Cogroup(a, b)
+})
+
 type program struct {
-	name string
+	// cutsOnly: only the task-to-task Worker.Read labels of this program are
+	// fault points (reply cut at and inside every batch, and the plain variants).
+	cutsOnly bool
+	name     string
 	// run evaluates the program on sess and returns the result to be scanned.
 	run func(ctx context.Context, sess *exec.Session) (*exec.Result, error)
 }
@@ -103,12 +123,14 @@ func single(f *bigslice.FuncValue) func(ctx context.Context, sess *exec.Session)
 }
 
 var programs = []program{
-	{"maponly", single(fMapOnly)},
-	{"reduce", single(fReduce)},
-	{"cogroup", single(fCogroup)},
-	{"fold", single(fFold)},
-	{"twostage", single(fTwoStage)},
-	{"reuse", func(ctx context.Context, sess *exec.Session) (*exec.Result, error) {
+	{name: "maponly", run: single(fMapOnly)},
+	{name: "reduce", run: single(fReduce)},
+	{name: "cogroup", run: single(fCogroup)},
+	{name: "fold", run: single(fFold)},
+	{name: "twostage", run: single(fTwoStage)},
+	{name: "disjreduce", run: single(fDisjReduce), cutsOnly: true},
+	{name: "disjcogroup", run: single(fDisjCogroup), cutsOnly: true},
+	{name: "reuse", run: func(ctx context.Context, sess *exec.Session) (*exec.Result, error) {
 		a, err := sess.Run(ctx, fReuseA)
 		if err != nil {
 			return nil, err
